@@ -1,6 +1,7 @@
 package main
 
 import (
+	"context"
 	"fmt"
 	"reflect"
 	"sort"
@@ -8,6 +9,8 @@ import (
 	"unsafe"
 
 	v1 "k8s.io/api/core/v1"
+	"k8s.io/client-go/kubernetes"
+	k8sfwk "k8s.io/kubernetes/pkg/scheduler/framework"
 
 	agentapi "volcano.sh/volcano/pkg/agentscheduler/api"
 	agentcache "volcano.sh/volcano/pkg/agentscheduler/cache"
@@ -48,6 +51,50 @@ func addAgentNode(sc *agentcache.SchedulerCache, n sched.NodeSpec) {
 	}
 }
 
+// logBinder records what Binder.Bind is handed and accepts everything.
+type logBinder struct {
+	mu  sync.Mutex
+	log [][2]int64
+}
+
+func (b *logBinder) Bind(_ kubernetes.Interface, tasks []*api.TaskInfo) map[api.TaskID]string {
+	b.mu.Lock()
+	defer b.mu.Unlock()
+	for _, t := range tasks {
+		b.log = append(b.log, [2]int64{sched.ParseID(string(t.UID)), sched.ParseID(t.NodeName)})
+	}
+	return map[api.TaskID]string{}
+}
+func (b *logBinder) pairs() [][2]int64 { b.mu.Lock(); defer b.mu.Unlock(); return append([][2]int64{}, b.log...) }
+func (b *logBinder) has(t, n int64) bool {
+	for _, p := range b.pairs() {
+		if p[0] == t && p[1] == n {
+			return true
+		}
+	}
+	return false
+}
+
+type okUpdater struct{}
+
+func (okUpdater) UpdatePodStatus(pod *v1.Pod) (*v1.Pod, error) { return pod, nil }
+
+// scriptedPreBinder fails PreBind for the tasks of the current flow item's script.
+type scriptedPreBinder struct {
+	mu   sync.Mutex
+	fail map[int64]bool
+}
+
+func (p *scriptedPreBinder) PreBind(_ context.Context, c *agentapi.BindContext) error {
+	p.mu.Lock()
+	defer p.mu.Unlock()
+	if p.fail[sched.ParseID(string(c.SchedCtx.Task.UID))] {
+		return fmt.Errorf("scripted: PreBind of %s fails", c.SchedCtx.Task.Name)
+	}
+	return nil
+}
+func (p *scriptedPreBinder) PreBindRollBack(context.Context, *agentapi.BindContext) {}
+
 // recovered runs an agent-cache handler whose last statement notifies the scheduling queue the mock
 // cache does not have: the nil dereference happens after the cache has been updated and the deferred
 // Unlock has run.
@@ -62,9 +109,12 @@ func recovered(f func()) {
 // DeletePodFromCache / AddOrUpdateNode.
 func runAgent(in []int64) ([]int64, []int64) {
 	b := decBind(in)
-	sc := agentcache.NewDefaultMockSchedulerCache("volcano-agent")
-	// RemoveNode talks to the conflict-aware binder (RemoveBindRecord), which the mock leaves nil
-	sc.ConflictAwareBinder = agentcache.NewConflictAwareBinder(sc, nil)
+	// mock cache with a real scheduling queue and conflict-aware binder (/repo verif hook), a binder
+	// that logs what it is handed, a status updater that accepts, and a scripted PreBinder
+	binder := &logBinder{}
+	pre := &scriptedPreBinder{fail: map[int64]bool{}}
+	sc := agentcache.VerifNewMockSchedulerCache("volcano-agent", binder, okUpdater{})
+	sc.RegisterBinder("verif-prebinder", pre)
 	for _, n := range b.Nodes {
 		addAgentNode(sc, n)
 	}
@@ -97,7 +147,9 @@ func runAgent(in []int64) ([]int64, []int64) {
 		}
 		ti := api.NewTaskInfo(ts.Pod())
 		ti.NodeName = sched.NodeName(it.Bind[2])
-		ctxs[i] = &agentapi.BindContext{SchedCtx: &agentapi.SchedulingContext{Task: ti}, Extensions: map[string]scache.BindContextExtension{}}
+		pi, _ := k8sfwk.NewPodInfo(ti.Pod)
+		ctxs[i] = &agentapi.BindContext{SchedCtx: &agentapi.SchedulingContext{Task: ti, QueuedPodInfo: &k8sfwk.QueuedPodInfo{PodInfo: pi}},
+			Extensions: map[string]scache.BindContextExtension{}}
 		index[ctxs[i]] = i
 	}
 	var evMu sync.Mutex
@@ -109,6 +161,15 @@ func runAgent(in []int64) ([]int64, []int64) {
 		switch it.Kind {
 		case itBind:
 			return sc.AddBindTask(ctxs[i])
+		case itFlow:
+			// the bind execution: pre-binders (scripted failures), then Binder.Bind
+			pre.mu.Lock()
+			pre.fail = map[int64]bool{}
+			for _, t := range it.Fails {
+				pre.fail[t] = true
+			}
+			pre.mu.Unlock()
+			sc.VerifProcessBindFlow()
 		case itRemoveNode:
 			if ni := agentNodeInfo(sc, sched.NodeName(it.Task)); ni != nil && len(ni.Tasks) > 0 {
 				evMu.Lock()
@@ -205,6 +266,40 @@ func runAgent(in []int64) ([]int64, []int64) {
 		}
 	}
 	placed := agentPlaced(b, order, errs)
+	// bind execution: an accepted call is charged until its bind is executed; a failed PreBind releases
+	// it (the pod is re-queued, not bound); what Binder.Bind was handed is REALLY bound: it counts on
+	// its node until its pod object is deleted
+	for _, i := range order {
+		it := b.Items[i]
+		if it.Kind != itFlow {
+			continue
+		}
+		failing := map[int64]bool{}
+		for _, t := range it.Fails {
+			failing[t] = true
+		}
+		for _, j := range order {
+			if j == i {
+				break
+			}
+			jt := b.Items[j]
+			if jt.Kind == itBind && errs[j] == nil && failing[jt.Bind[1]] && !binder.has(jt.Bind[1], jt.Bind[2]) {
+				delete(placed, [2]int64{jt.Bind[1], jt.Bind[2]})
+			}
+		}
+	}
+	for _, p := range binder.pairs() {
+		placed[p] = true
+	}
+	for _, i := range order {
+		if it := b.Items[i]; it.Kind == itDelete {
+			for k := range placed {
+				if k[0] == it.Task {
+					delete(placed, k)
+				}
+			}
+		}
+	}
 	got = append(got, -112)
 	nids := sched.SortedIDs(sc.Nodes, func(n string) int64 { return sched.ParseID(n) })
 	got = append(got, int64(len(nids)))
@@ -219,6 +314,10 @@ func runAgent(in []int64) ([]int64, []int64) {
 		tids := mergeHeldPairs(n, sched.SortedIDs(ni.Tasks, func(u api.TaskID) int64 { return sched.ParseID(string(u)) }), placed)
 		held = append(held, n, int64(len(tids)))
 		held = append(held, tids...)
+	}
+	got = append(got, -113)
+	for _, p := range binder.pairs() {
+		got = append(got, p[0], p[1])
 	}
 	lastLaw = append(replay.finalSpecs().enc(), held...)
 	lastSig, lastLawExcused = "", nil
@@ -416,7 +515,38 @@ func genAgentCase(r *vh.Rng) (bindCase, bool) {
 	return b, nt
 }
 
+// prebindCase (directed, seeded mutant C02-r7-1): pod a is admitted, its PreBind fails (the cache
+// releases it and re-queues the pod: it must NOT be handed to the binder), pod b -- which fits only
+// because of what a released -- is admitted and bound.
+func prebindCase(r *vh.Rng) bindCase {
+	var b bindCase
+	cpu := int64(r.Range(2, 6)) * 1000
+	b.Nodes = []sched.NodeSpec{{ID: 1, Has: true, CPU: cpu, Mem: 32 << 20, Pods: 20}}
+	a := cpu/2 + int64(r.Range(1, int(cpu/1000)))*500
+	if a > cpu {
+		a = cpu
+	}
+	b.Tasks = []sched.TaskSpec{{ID: 1, Job: 1, Role: 1, CPU: a, Mem: 1 << 20, Status: sched.SPending},
+		{ID: 2, Job: 1, Role: 1, CPU: a, Mem: 1 << 20, Status: sched.SPending},
+		{ID: 3, Job: 1, Role: 1, CPU: 250, Mem: 1 << 20, Status: sched.SPending}}
+	b.Jobs = []sched.JobSpec{{ID: 1, Queue: 1}}
+	b.Workers = int64(r.Range(1, 3))
+	b.Exact = true
+	b.Items = []item{{Kind: itBind, Bind: [3]int64{1, 1, 1}}}
+	if r.Chance(1, 2) {
+		b.Items = append(b.Items, item{Kind: itBind, Bind: [3]int64{1, 3, 1}})
+	}
+	b.Items = append(b.Items, item{Kind: itFlow, Fails: []int64{1}}, item{Kind: itBind, Bind: [3]int64{1, 2, 1}}, item{Kind: itFlow})
+	return b
+}
+
 func genAgent(rng *vh.Rng, n int, emit func(id string, sel int, in []int64, kind string, nontrivial bool, desc any)) {
+	fr := rng.Fork()
+	for i := 0; i < max(4, n/50); i++ {
+		b := prebindCase(fr.Fork())
+		emit(fmt.Sprintf("agent-prebind-%d", i), 3, b.enc(), "bind/agent/prebind", true,
+			map[string]any{"directed": "admitted pod whose PreBind fails, then a pod that fits only what it released", "items": len(b.Items)})
+	}
 	rr := rng.Fork()
 	for i := 0; i < max(3, n/60); i++ {
 		b := readdCase(rr.Fork())
